@@ -54,7 +54,9 @@ Cfg == [natPrefix |-> IF SamePrefix THEN "osmo" ELSE "celestia",
         batchPeriod |-> BatchPeriod, lst |-> LstD]
 
 StartFunds == 12
-InitBank == [k \in (Users \X {NatD}) |-> StartFunds]
+\* ("direct": the admin holds staked asset too, so that it can try to pay a batch in directly)
+Funded == Users \cup (IF "direct" \in Extras THEN {"admin"} ELSE {})
+InitBank == [k \in (Funded \X {NatD}) |-> StartFunds]
 
 Init ==
   /\ w = LET w0 == InitWorld(Cfg, "admin", T0, InitBank)
@@ -68,7 +70,7 @@ Init ==
   /\ sid = 0
   /\ par = 0
   /\ (EmitTests => /\ TLCSet(1, 0)
-                    /\ PrintT("MODEL " \o ToJson([users |-> Users, fee |-> FeeRate, treasury |-> TreasuryAddr,
+                    /\ PrintT("MODEL " \o ToJson([users |-> Funded, fee |-> FeeRate, treasury |-> TreasuryAddr,
                                oracle |-> OracleAddr, minStake |-> MinStake, batchPeriod |-> BatchPeriod,
                                unbonding |-> Unbonding, halted |-> StartHalted, funds |-> StartFunds, samePrefix |-> SamePrefix,
                                monitors |-> SetToSeq(Monitors0),
@@ -180,6 +182,10 @@ WrongSender  == "wrongsender" \in Extras /\
 Direct       == "direct" \in Extras /\ \E u \in Principals :
                   \/ Do([m |-> "receive_rewards", s |-> u, funds |-> << >>])
                   \/ \E b \in BatchIds(w.c) : Do([m |-> "receive_unstaked_tokens", s |-> u, b |-> b, funds |-> << >>])
+                  \* ... and with a real payment attached, by whoever holds staked asset (the admin among them)
+                  \/ Bal(w.bank, u, NatD) >= 1 /\ Do([m |-> "receive_rewards", s |-> u, funds |-> <<<<NatD, 1>>>>])
+                  \/ \E b \in BatchIds(w.c) : Bal(w.bank, u, NatD) >= 1 /\
+                        Do([m |-> "receive_unstaked_tokens", s |-> u, b |-> b, funds |-> <<<<NatD, 1>>>>])
 \* wrong payments: staking with the LST, unstaking with the staked asset, two coins at once, no coin at all; a
 \* delivery for a batch id that does not exist; recovery towards something that is not a native-chain address
 BadInputs    == "badinputs" \in Extras /\
@@ -227,6 +233,10 @@ Reperiod     == "period" \in Extras /\ w.c.cfg.batchPeriod = BatchPeriod /\
                   Do([m |-> "update_config", s |-> w.c.admin, up |-> [period |-> [secs |-> BatchPeriod + 1]]])
 Demonitor    == "demonitor" \in Extras /\ w.c.cfg.monitors # {} /\
                   Do([m |-> "update_config", s |-> w.c.admin, up |-> [monitorsec |-> [list |-> << >>, valid |-> TRUE]]])
+\* the admin removes the oracle in the middle of a history: from then on nothing is posted, everything else as before
+Unoracle     == "unoracle" \in Extras /\ w.c.cfg.oracle # "" /\
+                  Do([m |-> "update_config", s |-> w.c.admin,
+                      up |-> [proto |-> [channel |-> w.c.cfg.channel, minStake |-> w.c.cfg.minStake, oracle |-> "", valid |-> TRUE]]])
 TopUp        == "long" \in Returns /\ Get(w.nat.bal, Staker) < MaxN /\ Do(NatFundCall(Staker, 1))
 Relay        == \E p \in w.ibc.fly, o \in Outcomes : Do(AckCall(p.seq, o))
 Recover_     == \E u \in Principals, rcv \in {""} \cup {NatOf(x) : x \in Users}, f \in FailSeqs :
@@ -237,6 +247,9 @@ Recover_     == \E u \in Principals, rcv \in {""} \cup {NatOf(x) : x \in Users},
 \*  each tracked packet is still re-sent at most once and a late callback for it is a callback for an unknown packet)
 Forced       == AdminOps /\
                 \/ \E u \in Principals : Do(ForcedCall(u, << >>, ""))
+                \* towards somebody who is NOT the packet's receiver (refused: value never changes hands by recovery)
+                \/ \E p \in w.c.pk, u \in Principals :
+                      Refundable(p) /\ Do(ForcedCall(u, <<p.seq>>, IF p.rcv = Staker THEN NatOf(CHOOSE x \in Users : TRUE) ELSE ""))
                 \/ \E p \in w.c.pk, u \in Principals :
                   /\ (Refundable(p) \/ ("forceinflight" \in Extras /\ u = w.c.admin))
                   /\ \/ \E sel \in {<<p.seq>>, <<p.seq, p.seq>>} :
@@ -247,16 +260,18 @@ Forced       == AdminOps /\
 FeeWithdraw_ == AdminOps /\ \E u \in Principals, a \in {1, w.c.fees, w.c.fees + 1} : a > 0 /\ Do(FeeWithdrawCall(u, a))
 Breaker      == AdminOps /\ \E u \in Principals : Do(BreakerCall(u))
 Resume       == AdminOps /\ w.c.stopped /\ \E u \in Principals, k \in ResumeScales :
-                  LET n == CASE k = "same" -> w.c.N [] k = "down" -> w.c.N - (w.c.N \div 3) [] k = "up" -> w.c.N + 1 [] k = "zerolst" -> 5
+                  LET n == CASE k \in {"same", "rewards0"} -> w.c.N [] k = "down" -> w.c.N - (w.c.N \div 3) [] k = "up" -> w.c.N + 1 [] k = "zerolst" -> 5
                       \* "zerolst": a positive staked total with NO LST (ownerless stake, swept to fees by the next stake)
                       l == IF k = "zerolst" THEN 0 ELSE w.c.L
                   \* at most one correction of the totals per behaviour (each one opens a new family of totals)
-                  IN (l = 0 \/ n > 0) /\ (k = "same" \/ (w.led.radjN = 0 /\ w.led.radjL = 0)) /\ (k = "zerolst" => w.c.L = 0)
-                     /\ Do(ResumeCall(u, n, l, w.c.rewards))
+                  IN (l = 0 \/ n > 0) /\ (k \in {"same", "rewards0"} \/ (w.led.radjN = 0 /\ w.led.radjL = 0)) /\ (k = "zerolst" => w.c.L = 0)
+                     /\ (k = "rewards0" => w.c.rewards > 0)
+                     \* ("rewards0": the reward counter is corrected as well - downwards)
+                     /\ Do(ResumeCall(u, n, l, IF k = "rewards0" THEN 0 ELSE w.c.rewards))
 Tick         == \E t \in TimePoints : Do(TimeCall(t))
 
 Next == Stake \/ StakeVariants \/ BadInputs \/ Unstake \/ Submit \/ Withdraw_ \/ Rewards \/ ReturnBatch \/ WrongSender \/ Direct \/ TopUp
-        \/ Relay \/ Stray_ \/ Recover_ \/ Forced \/ FeeWithdraw_ \/ Breaker \/ Resume \/ Matrix \/ Toggle \/ TSpend \/ Rechannel \/ NewCounter \/ Reperiod \/ Demonitor \/ Tick
+        \/ Relay \/ Stray_ \/ Recover_ \/ Forced \/ FeeWithdraw_ \/ Breaker \/ Resume \/ Matrix \/ Toggle \/ TSpend \/ Rechannel \/ NewCounter \/ Reperiod \/ Demonitor \/ Unoracle \/ Tick
 
 Spec == Init /\ [][Next]_vars
 
@@ -272,6 +287,7 @@ Bounded ==
 \* ------------------------------------------------------------------ properties
 P_C01  == Inv_C01(w)
 P_C01b == Inv_C01b(w)
+P_C01c == Inv_C01c(w)
 P_C02  == Inv_C02(w)
 P_C03  == Inv_C03(w)
 P_C05  == Inv_C05(w)
